@@ -437,6 +437,11 @@ func main() {
 		}
 		*seed = rf.Seed
 		jobs = []job{{rf.Family, rf.Index}}
+	} else if *prop == "C06" {
+		// C06 uses this engine only for failures in the middle of a single composite command
+		for i := 0; i < []int{64, 2000}[ti]; i++ {
+			jobs = append(jobs, job{"single", i})
+		}
 	} else {
 		for i := 0; i < int(float64(nseq[ti])**scale); i++ {
 			jobs = append(jobs, job{"seq", i})
@@ -480,6 +485,8 @@ func main() {
 			runIsolation(r, rng)
 		case "commitfault":
 			runCommitFault(r, rng)
+		case "single":
+			runSingle(r, rng)
 		}
 		rep.Evaluations++
 		rep.Families[j.fam]++
